@@ -380,7 +380,7 @@ fn search_listen_forward(ob: &str) {
             msg.extend_from_slice(payload);
             let _ = c.write_all(&msg);
             let _ = c.shutdown(std::net::Shutdown::Write);
-            let _ = c.set_read_timeout(Some(Duration::from_millis(1500)));
+            let _ = c.set_read_timeout(Some(Duration::from_millis(5000)));
             let _ = c.read_to_end(&mut observed);
         }
         stop.store(true, Ordering::SeqCst);
@@ -435,7 +435,8 @@ impl ConnectionHandler for Blocking {
         Err(varlink::context!(varlink::ErrorKind::ConnectionClosed))
     }
 }
-fn pool_run(initial: usize, max: usize, conns: usize, tag: &str) -> (usize, usize) {
+fn pool_run(initial: usize, max: usize, conns: usize, tag: &str) -> (usize, usize) { pool_run_wait(initial, max, conns, tag, 400) }
+fn pool_run_wait(initial: usize, max: usize, conns: usize, tag: &str, settle_ms: u64) -> (usize, usize) {
     let addr = format!("unix:@vx-replay-{}-{}-{}", std::process::id(), tag, initial * 100 + max * 10 + conns);
     let active = Arc::new(AtomicUsize::new(0));
     let peak = Arc::new(AtomicUsize::new(0));
@@ -453,7 +454,7 @@ fn pool_run(initial: usize, max: usize, conns: usize, tag: &str) -> (usize, usiz
     for _ in 0..conns {
         if let Ok(c) = varlink::Connection::with_address(&addr) { cs.push(c); }
     }
-    std::thread::sleep(Duration::from_millis(400));
+    std::thread::sleep(Duration::from_millis(settle_ms));
     let res = (peak.load(Ordering::SeqCst), started.load(Ordering::SeqCst));
     *release.write().unwrap() = true;
     stop.store(true, Ordering::SeqCst);
@@ -480,7 +481,11 @@ fn search_pool_strand(ob: &str) {
     for round in 0..40 {
         for (i, m, c) in [(1usize, 8usize, 3usize), (1, 8, 4), (2, 8, 5)] {
             explored += 1;
-            let (_peak, started) = pool_run(i, m, c, &format!("s{}", round));
+            let (_peak, mut started) = pool_run(i, m, c, &format!("s{}", round));
+            if started < c {
+                // timing guard: a loaded machine may just be slow to start the workers -- the finding must reproduce with a 3 s settle time
+                started = pool_run_wait(i, m, c, &format!("r{}", round), 3000).1;
+            }
             if started < c && found.is_none() {
                 found = Some(json!({"initial_worker_threads": i, "max_worker_threads": m, "connections_opened_in_a_burst": c, "connections_that_started_being_served": started, "round": round}));
             }
@@ -701,7 +706,7 @@ fn search_listen_time(obs: &[&str]) {
             stop.store(true, Ordering::SeqCst);
             std::thread::sleep(Duration::from_millis(300));
             drop(a);
-            let _ = b.set_read_timeout(Some(Duration::from_millis(1500)));
+            let _ = b.set_read_timeout(Some(Duration::from_millis(6000)));
             let mut buf = [0u8; 4096];
             if let Ok(n) = b.read(&mut buf) { got.extend_from_slice(&buf[..n]); }
         }
